@@ -5,7 +5,8 @@ sys.path.insert(0, os.environ.get('VERIF_REPO','/repo'))
 from pyvc import run
 def main():
     prop, tname = sys.argv[1], sys.argv[2]
-    case = json.loads(sys.argv[3]) if len(sys.argv) > 3 else {}
+    from pyvc.api import dec_case
+    case = dec_case(json.loads(sys.argv[3])) if len(sys.argv) > 3 else {}
     known,_ = run.load_known(prop)
     if os.environ.get('NOKNOWN'): known = {}
     r = run.run_job((prop, tname, case, int(os.environ.get('TMO','10000')), known, None))
